@@ -205,6 +205,47 @@ def run(tier, seed):
                 il = parse_both(is_reg, d)
                 if il != LIB_IJS:
                     chk.violation(f"unknown enum value at {path} not refused with the structure exception: {il[:60]}", f"refusal-enum {path[-1] if isinstance(path[-1], str) else path[-2]}", {"input": d, "impl": il[:200]})
+    # sizes are not limited anywhere: long texts (padding / an ignored member), long binary members and long lists read back like short ones
+    for is_reg in (True, False):
+        a = optsim.gen_reg_args(rng) if is_reg else optsim.gen_auth_args(rng)
+        for n in fw.size_ladder():
+            small = n <= 70000
+            a2 = dict(a)
+            a2["challenge"] = bytes(i % 251 for i in range(n))
+            key = "exclude" if is_reg else "allow"
+            a2[key] = [{"id": bytes((i * 7) % 253 for i in range(n)), "transports": ["usb"]}] + ([{"id": i.to_bytes(4, "big"), "transports": None} for i in range(n)] if n <= 5000 else [])
+            o = webauthn.generate_registration_options(**optsim.reg_kwargs(a2)) if is_reg else webauthn.generate_authentication_options(**optsim.auth_kwargs(a2))
+            text = options_to_json(o)
+            want = "OK " + (optsim.pr_creation(normalise(o)) if is_reg else optsim.pr_request(normalise(o)))
+            f = parse_registration_options_json if is_reg else parse_authentication_options_json
+            pr = optsim.pr_creation if is_reg else optsim.pr_request
+            o_small = webauthn.generate_registration_options(**optsim.reg_kwargs(dict(a, challenge=b"c" * 16, user_id=b"u" * 8))) if is_reg else webauthn.generate_authentication_options(**optsim.auth_kwargs(dict(a, challenge=b"c" * 16)))
+            t_small = options_to_json(o_small)
+            want_small = "OK " + pr(normalise(o_small))
+            for what, val, w in (("long binary members and lists", text, want), ("whitespace-padded text", t_small + " " * n, want_small), ("leading whitespace", " " * n + t_small, want_small),
+                                 ("text with a large ignored member", t_small[:-1] + ', "zz_ignored": "' + "x" * n + '"}', want_small)):
+                il = parse_both(is_reg, val) if small else impl.outcome(lambda: f(val), pr)
+                chk.evals += 1
+                if il != w:
+                    chk.violation(f"options JSON ({what}, size {n}) does not read back like the original", f"size-dependent {'reg' if is_reg else 'auth'} {what}",
+                                  {"entry": "parse_options_json", "size": n, "what": what, "impl": il[:200], "expected": w[:200]})
+    # JSON text may repeat a member name (json.loads keeps the last): the text is read exactly like the value json.loads gives for it
+    for is_reg in (True, False):
+        a = optsim.gen_reg_args(rng) if is_reg else optsim.gen_auth_args(rng)
+        o = webauthn.generate_registration_options(**optsim.reg_kwargs(dict(a, challenge=b"c" * 16))) if is_reg else webauthn.generate_authentication_options(**optsim.auth_kwargs(dict(a, challenge=b"c" * 16)))
+        t = options_to_json(o)
+        j = json.loads(t)
+        dups = [('"challenge": "AAAA"', "first"), ('"challenge": 5', "first"), ('"timeout": 1', "first"), ('"timeout": 99999', "last"), ('"challenge": "ZZZZ"', "last")]
+        dups += ([('"rp": {"name": "Other", "id": "other.example"}', "first"), ('"attestation": "direct"', "first"), ('"attestation": "enterprise"', "last"), ('"user": {"id": "AA", "name": "n", "displayName": "d"}', "first"),
+                  ('"pubKeyCredParams": [{"type": "public-key", "alg": -257}]', "first"), ('"rp": 7', "first")] if is_reg else
+                 [('"userVerification": "discouraged"', "first"), ('"userVerification": "required"', "last"), ('"rpId": "other.example"', "first"), ('"allowCredentials": []', "first"), ('"userVerification": "bogus"', "first")])
+        for extra, where in dups:
+            t2 = ("{" + extra + ", " + t[1:]) if where == "first" else (t[:-1] + ", " + extra + "}")
+            a_t = parse_both(is_reg, t2)
+            a_d = parse_both(is_reg, json.loads(t2))
+            if a_t != a_d:
+                chk.violation("options text with a repeated member name is read differently from the value json.loads gives for it", f"duplicate-member-name {'reg' if is_reg else 'auth'}",
+                              {"entry": "parse_options_json", "text": t2[:600], "text_form": a_t[:300], "dict_form": a_d[:300]})
     # arbitrary mutations: model vs implementation only
     for i in range(300 if quick else 10000):
         is_reg = rng.random() < 0.6
